@@ -11,11 +11,15 @@ import (
 	"strings"
 )
 
-type specErr struct{ msg string }
+type specErr struct {
+	msg  string
+	gone bool // the clause refers to a call the code no longer makes
+}
 
 func (e specErr) Error() string { return e.msg }
 
-func sfail(format string, a ...any) { panic(specErr{fmt.Sprintf(format, a...)}) }
+func sfail(format string, a ...any) { panic(specErr{msg: fmt.Sprintf(format, a...)}) }
+func sgone(format string, a ...any) { panic(specErr{msg: fmt.Sprintf(format, a...), gone: true}) }
 
 // SpecEnv is the context a spec expression is evaluated in.
 type SpecEnv struct {
@@ -36,6 +40,13 @@ type SpecEnv struct {
 	nopol   bool             // polarity unknown (under <==>, ?:, ==)
 	qdepth  int              // nesting depth of quantifiers
 	witness map[string]SExpr // witnesses for positive existentials in goals
+	derefs  *[]string        // when set: the non-nil conditions of the pointers dereferenced during evaluation
+}
+
+func (se *SpecEnv) noteDeref(nonnil string) {
+	if se.derefs != nil && nonnil != "" && nonnil != "true" {
+		*se.derefs = append(*se.derefs, nonnil)
+	}
 }
 
 func (se *SpecEnv) state() *State {
@@ -292,6 +303,7 @@ func (se *SpecEnv) binary(e SBinary, hint types.Type) Val {
 		if isInteger(x.T) && isInteger(y.T) && intWidth(x.T) != intWidth(y.T) {
 			sfail("comparison of %s and %s (different widths)", x.T, y.T)
 		}
+		f.eqState = se.state()
 		r := f.valEq(x, y)
 		if e.Op == "!=" {
 			r = not(r)
@@ -435,6 +447,18 @@ func (se *SpecEnv) load(t types.Type, a Addr) Val {
 	return v
 }
 
+// pureWF: the value of a pure function or method is a Go value: outside
+// quantifiers its well-formedness (allocated references, allocation types)
+// is assumed, as it is for the result of the same call in the code.
+func (se *SpecEnv) pureWF(v Val) Val {
+	if se.qdepth == 0 && se.guard != "" {
+		if w := se.f.wf(se.state(), v); w != "true" {
+			se.f.c.assume(se.guard, w)
+		}
+	}
+	return v
+}
+
 func (se *SpecEnv) selector(e SSelector) Val {
 	f := se.f
 	// qualified package constant / variable
@@ -469,6 +493,7 @@ func (se *SpecEnv) selector(e SSelector) Val {
 				sfail("no field %s in %s", e.Name, pt)
 			}
 			v := se.load(fi.T, ptrAddr(x).plusSub(fi.Off))
+			se.noteDeref(not(eq(x.L[0], "0")))
 			if se.qdepth == 0 && x.Loc == nil {
 				// a field of a non-nil pointer is real memory holding a
 				// valid Go value of the field's type
@@ -561,7 +586,14 @@ func (se *SpecEnv) index(x Val, ie SExpr) Val {
 				f.c.assume(se.guard, implies(and(not(eq(x.L[0], "0")), has), w))
 			}
 		}
-		return v
+		// Go semantics: the zero value for an absent key (and for a nil map)
+		present := and(not(eq(x.L[0], "0")), has)
+		z := f.zero(u.Elem())
+		out := Val{T: v.T}
+		for i := range v.L {
+			out.L = append(out.L, ite(present, v.L[i], z.L[i]))
+		}
+		return out
 	case *types.Basic:
 		if isString(x.T) {
 			i := se.idx(ie)
@@ -888,6 +920,13 @@ func (se *SpecEnv) call(e SCall, hint types.Type) Val {
 		k := se.eval(e.Args[1], mt.Key())
 		h, _ := f.mapGet(se.state(), mt, m.L[0], k.L[0])
 		return boolVal(and(not(eq(m.L[0], "0")), h))
+	case "foreignobject": // the object x refers to was not allocated as a struct or array type of the repository (or x is nil)
+		x := se.eval(e.Args[0], nil)
+		ref := x.L[0]
+		if _, isIface := x.T.Underlying().(*types.Interface); isIface {
+			ref = x.L[1]
+		}
+		return boolVal(or(eq(ref, "0"), "(< (objtype "+ref+") 1000)"))
 	case "unchangedobject": // every cell of the object x refers to is as in the pre-state
 		x := se.eval(e.Args[0], nil)
 		ref := x.L[0]
@@ -936,7 +975,9 @@ func (se *SpecEnv) call(e SCall, hint types.Type) Val {
 			rt = fn.Signature.Results().At(0).Type()
 		}
 		f.c.trusted["assumed contract "+lit.Val] = true
-		return f.pureResult(se.state(), lit.Val, args, rt, con.Reads)
+		res := se.pureWF(f.pureResult(se.state(), lit.Val, args, rt, con.Reads))
+		f.assumePurePost(se, con, paramNames(fn), args, res, rt, lit.Val)
+		return res
 	case "callresult": // callresult("Name", k): the value returned by the k-th call of Name in this function
 		lit, ok := e.Args[0].(SLit)
 		if !ok || lit.Kind != "string" {
@@ -948,8 +989,29 @@ func (se *SpecEnv) call(e SCall, hint types.Type) Val {
 		}
 		v, ok := f.callResults[lit.Val+"#"+kl.Val]
 		if !ok {
-			sfail("no call %s#%s recorded (yet) in this function", lit.Val, kl.Val)
+			sgone("no call %s#%s recorded (yet) in this function", lit.Val, kl.Val)
 		}
+		return v
+	case "atcall": // atcall("Name", k, e): e evaluated over the heap right after the k-th call of Name in this function (locals: current values)
+		lit, ok := e.Args[0].(SLit)
+		if !ok || lit.Kind != "string" {
+			sfail("atcall needs the callee's short name as a string literal")
+		}
+		kl, ok := e.Args[1].(SLit)
+		if !ok || kl.Kind != "int" {
+			sfail("atcall needs a literal ordinal")
+		}
+		snap, ok := f.callStates[lit.Val+"#"+kl.Val]
+		if !ok {
+			sgone("no call %s#%s recorded (yet) in this function", lit.Val, kl.Val)
+		}
+		// local variables keep their current values; only the heap is the earlier one
+		hy := snap.clone()
+		hy.locals = se.state().locals
+		savedCur, savedOld := se.cur, se.inOld
+		se.cur, se.inOld = hy, false
+		v := se.eval(e.Args[2], hint)
+		se.cur, se.inOld = savedCur, savedOld
 		return v
 	case "first", "second", "third": // projections of a tuple value
 		x := se.eval(e.Args[0], nil)
@@ -996,7 +1058,30 @@ func (se *SpecEnv) call(e SCall, hint types.Type) Val {
 			sfail("interface has no method %s", mname)
 		}
 		f.c.trusted["iface contract "+lit.Val] = true
-		return f.pureResult(se.state(), lit.Val, args, rt, con.Reads)
+		return se.pureWF(f.pureResult(se.state(), lit.Val, args, rt, con.Reads))
+	case "holds": // holds(x, v): the interface value x holds a value of v's type that equals v (Go's x == v)
+		x := se.eval(e.Args[0], nil)
+		if _, ok := x.T.Underlying().(*types.Interface); !ok {
+			sfail("holds() needs an interface value, got %s", x.T)
+		}
+		v := se.eval(e.Args[1], nil)
+		if _, ok := v.T.Underlying().(*types.Basic); !ok {
+			sfail("holds() compares with a value of a basic type, got %s", v.T)
+		}
+		vt := v.T
+		if b, ok := vt.(*types.Basic); ok && b.Info()&types.IsUntyped != 0 {
+			vt = types.Default(vt)
+		}
+		pv := se.load(vt, Addr{Ref: x.L[1], Idx: x.L[2], Sub: x.L[3]})
+		f.eqState = se.state()
+		return boolVal(and(eq(x.L[0], f.c.typeTag(vt)), f.valEq(pv, Val{T: vt, L: v.L})))
+	case "boxedslice": // the backing array of the slice held in an interface value (as a pointer to its object; for object(...))
+		x := se.eval(e.Args[0], nil)
+		if _, ok := x.T.Underlying().(*types.Interface); !ok {
+			sfail("boxedslice() needs an interface value, got %s", x.T)
+		}
+		ref := f.loadLeaf(se.state(), SInt, Addr{Ref: x.L[1], Idx: x.L[2], Sub: x.L[3]})
+		return Val{T: types.NewPointer(types.Typ[types.Uint8]), L: []string{f.c.define("bxs", SInt, ref), bv64(0), bv64(0)}}
 	case "asbytes": // the []byte held in an interface value
 		x := se.eval(e.Args[0], nil)
 		bt := types.NewSlice(types.Typ[types.Uint8])
@@ -1119,7 +1204,9 @@ func (se *SpecEnv) call(e SCall, hint types.Type) Val {
 				rt = fn.Signature.Results().At(0).Type()
 			}
 			f.c.trusted["assumed contract "+key] = true
-			return f.pureResult(se.state(), key, args, rt, con.Reads)
+			res := se.pureWF(f.pureResult(se.state(), key, args, rt, con.Reads))
+			f.assumePurePost(se, con, paramNames(fn), args, res, rt, key)
+			return res
 		}
 	}
 	if sf == nil {
@@ -1263,9 +1350,22 @@ func (se *SpecEnv) place(e SExpr) (placeAddr, types.Type, bool) {
 	f := se.f
 	switch e := e.(type) {
 	case SSelector:
-		// package-qualified identifiers are not places
+		// package-qualified variables are places (their global object);
+		// other package-qualified identifiers are not
 		if id, ok := e.X.(SIdent); ok {
 			if _, isVar := se.lookupVar(id.Name); !isVar {
+				if se.pkg != nil {
+					for _, imp := range se.pkg.Imports() {
+						if imp.Name() != id.Name {
+							continue
+						}
+						if v, ok := imp.Scope().Lookup(e.Name).(*types.Var); ok {
+							if g := f.eng.globalOf(v); g != nil {
+								return placeAddr{Addr{Ref: f.globalRef(g), Idx: bv64(0), Sub: bv64(0)}, "true"}, v.Type(), true
+							}
+						}
+					}
+				}
 				return placeAddr{}, nil, false
 			}
 		}
@@ -1280,6 +1380,7 @@ func (se *SpecEnv) place(e SExpr) (placeAddr, types.Type, bool) {
 				// pointer stored at a place: load it
 				pv := se.loadPlace(pt, pa)
 				base = placeAddr{ptrAddr(pv), not(eq(pv.L[0], "0"))}
+				se.noteDeref(base.nonnil)
 				bt = derefType(pt)
 			} else {
 				base, bt = pa, pt
@@ -1293,6 +1394,7 @@ func (se *SpecEnv) place(e SExpr) (placeAddr, types.Type, bool) {
 				return placeAddr{}, nil, false
 			}
 			base = placeAddr{ptrAddr(v), not(eq(v.L[0], "0"))}
+			se.noteDeref(base.nonnil)
 			bt = derefType(v.T)
 		}
 		if _, ok := bt.Underlying().(*types.Struct); !ok {
